@@ -4,7 +4,7 @@ import UralModel.Py.UrlAccessors
 # URLs of the shape `http(s)://[userinfo@]host[:port][tail]` and what `urlsplit` reads in them
 
 `Shape y sch ui H po tl`: the string `y` is `sch :// ui H po tl` with `sch` one of the ASCII
-spellings of `http` / `https`, `ui` empty or a userinfo without `/ ? # [ ]` and without tab /
+spellings of `http` / `https`, `ui` empty or a userinfo without `/ ? #` and without tab /
 CR / LF followed by `@`, `H` a word of the host language of the `is_url` patterns, `po` empty
 or `:` and digits of the port class, `tl` empty or starting with `/`, `?` or `#`.
 
@@ -87,8 +87,6 @@ theorem isDelim_iff {c : Char} : isDelim c ↔ isNetlocDelim c = true := by
 /-- what a userinfo character must avoid for the parser to read the authority as the patterns do -/
 structure UiChar (c : Char) : Prop where
   nodelim : isNetlocDelim c = false
-  nolb : c ≠ '['
-  norb : c ≠ ']'
   safe : isUnsafeUrlChar c = false
 
 structure Shape (y sch ui H po tl : Str) : Prop where
@@ -113,17 +111,17 @@ theorem Shape.netloc_chars : ∀ c ∈ ui ++ (H ++ po), UiChar c := by
       · exact hw c hc
       · simp only [List.mem_singleton] at hc
         subst hc
-        exact ⟨by decide, by decide, by decide, by decide⟩
+        exact ⟨by decide, by decide⟩
   · rcases List.mem_append.mp hc with hc | hc
     · have g := host_goodChar h.host c hc
-      exact ⟨g.nodelim, g.nolb, g.norb, g.safe⟩
+      exact ⟨g.nodelim, g.safe⟩
     · rcases h.port with e | ⟨ds, e, _, hds⟩
       · rw [e] at hc; cases hc
       · rw [e] at hc
         rcases List.mem_cons.mp hc with rfl | hc
-        · exact ⟨by decide, by decide, by decide, by decide⟩
+        · exact ⟨by decide, by decide⟩
         · have g := digit_goodChar (hds c hc)
-          exact ⟨g.nodelim, g.nolb, g.norb, g.safe⟩
+          exact ⟨g.nodelim, g.safe⟩
 
 theorem Shape.hostport_no_at : '@' ∉ H ++ po := by
   intro hc
@@ -135,6 +133,27 @@ theorem Shape.hostport_no_at : '@' ∉ H ++ po := by
       rcases List.mem_cons.mp hc with hc | hc
       · cases hc
       · exact (digit_goodChar (hds _ hc)).noat rfl
+
+theorem Shape.hostport_no_bracket : '[' ∉ H ++ po ∧ ']' ∉ H ++ po := by
+  constructor
+  · intro hc
+    rcases List.mem_append.mp hc with hc | hc
+    · exact (host_goodChar h.host _ hc).nolb rfl
+    · rcases h.port with e | ⟨ds, e, _, hds⟩
+      · rw [e] at hc; cases hc
+      · rw [e] at hc
+        rcases List.mem_cons.mp hc with hc | hc
+        · cases hc
+        · exact (digit_goodChar (hds _ hc)).nolb rfl
+  · intro hc
+    rcases List.mem_append.mp hc with hc | hc
+    · exact (host_goodChar h.host _ hc).norb rfl
+    · rcases h.port with e | ⟨ds, e, _, hds⟩
+      · rw [e] at hc; cases hc
+      · rw [e] at hc
+        rcases List.mem_cons.mp hc with hc | hc
+        · cases hc
+        · exact (digit_goodChar (hds _ hc)).norb rfl
 
 theorem Shape.tail_head : ∀ c, tl.head? = some c → isNetlocDelim c = true := by
   intro c hc
@@ -195,31 +214,48 @@ theorem Shape.filter_tail_head :
     simp only [List.filter_cons, hu, Bool.not_false, if_true, List.head?_cons, Option.some.injEq] at hc
     subst hc; exact hdn
 
-/-- **what `urlsplit` reads**: scheme `lower sch`, netloc `ui H po` -/
-theorem Shape.urlsplit_eq :
+/-- **what `urlsplit` reads**: scheme `lower sch`, netloc `ui H po` — when the bracket check
+of the parser passes on that netloc (it always does without brackets), else `ValueError` -/
+theorem Shape.urlsplit_ok (hok : netlocOk (ui ++ (H ++ po)) = true) :
     ∃ path query frag, urlsplit y [] = some ⟨lower sch, ui ++ (H ++ po), path, query, frag⟩ := by
   have hs := h.sch.facts
   have hnl : ∀ c ∈ ui ++ (H ++ po), isNetlocDelim c = false := fun c hc => (h.netloc_chars c hc).nodelim
-  have hok : netlocOk (ui ++ (H ++ po)) = true :=
-    netlocOk_of_no_bracket (fun hm => (h.netloc_chars _ hm).nolb rfl) (fun hm => (h.netloc_chars _ hm).norb rfl)
   unfold urlsplit
   simp only [h.cleanUrl_eq, splitScheme_scheme' _ _ hs.1,
     splitNetloc_slashes _ _ hnl h.filter_tail_head, hok, Bool.not_true, Bool.false_eq_true, if_false]
   exact ⟨_, _, _, rfl⟩
 
+theorem Shape.urlsplit_bad (hbad : netlocOk (ui ++ (H ++ po)) = false) : urlsplit y [] = none := by
+  have hs := h.sch.facts
+  have hnl : ∀ c ∈ ui ++ (H ++ po), isNetlocDelim c = false := fun c hc => (h.netloc_chars c hc).nodelim
+  unfold urlsplit
+  simp only [h.cleanUrl_eq, splitScheme_scheme' _ _ hs.1,
+    splitNetloc_slashes _ _ hnl h.filter_tail_head, hbad, Bool.not_false, if_true]
+
+/-- the host part of the netloc (`netloc.rpartition('@')[2]`) -/
+theorem Shape.hostinfo_eq : hostinfoStr (ui ++ (H ++ po)) = H ++ po := by
+  unfold hostinfoStr
+  rcases h.ui with e | ⟨w, e, _⟩
+  · rw [e, List.nil_append, splitLast_notMem _ _ h.hostport_no_at]
+  · rw [e]
+    have : w ++ ['@'] ++ (H ++ po) = w ++ '@' :: (H ++ po) := by simp
+    rw [this, splitLast_append_sep _ _ _ h.hostport_no_at]
+
+/-- the userinfo part (`netloc.rpartition('@')[0]`) -/
+theorem Shape.userinfo_eq :
+    ((splitLast (ui ++ (H ++ po)) '@').1.getD []) ++ (if ui = [] then [] else ['@']) = ui := by
+  rcases h.ui with e | ⟨w, e, _⟩
+  · rw [e, List.nil_append, splitLast_notMem _ _ h.hostport_no_at]; simp
+  · rw [e]
+    have : w ++ ['@'] ++ (H ++ po) = w ++ '@' :: (H ++ po) := by simp
+    rw [this, splitLast_append_sep _ _ _ h.hostport_no_at]
+    simp
+
 /-- **the hostname accessor**: the host, lower-cased -/
 theorem Shape.hostname_eq : hostname (ui ++ (H ++ po)) = some (lower H) := by
   have hHne := lang_host_ne_nil h.host
-  have hi : hostinfoStr (ui ++ (H ++ po)) = H ++ po := by
-    unfold hostinfoStr
-    rcases h.ui with e | ⟨w, e, _⟩
-    · rw [e, List.nil_append, splitLast_notMem _ _ h.hostport_no_at]
-    · rw [e]
-      have : w ++ ['@'] ++ (H ++ po) = w ++ '@' :: (H ++ po) := by simp
-      rw [this, splitLast_append_sep _ _ _ h.hostport_no_at]
-  have hlb : '[' ∉ H ++ po := by
-    intro hm
-    exact (h.netloc_chars _ (List.mem_append_right _ hm)).nolb rfl
+  have hi := h.hostinfo_eq
+  have hlb : '[' ∉ H ++ po := h.hostport_no_bracket.1
   have hcolH : ':' ∉ H := fun hm => (host_goodChar h.host _ hm).nocolon rfl
   have hp1 : (hostPortStr (H ++ po)).1 = H := by
     unfold hostPortStr
